@@ -6,7 +6,7 @@ CHECK = dict(
          "filter, or a backup was due (a selected target tag existed with another digest and a backup template is configured), or a selected tag had been "
          "moved at the target; distinct by (entries incl. filters/platform/mediaTypes/backup/switches, defaults, source and target populations as tag->image "
          "maps, registry feature sets, steps with source changes, YAML style, image graph shapes).",
-    jobs=[REPLAY, rapid("prop", "TestVerifProp", 8000, 192000, sq=16, st=16)],
+    jobs=[REPLAY, rapid("prop", "TestVerifProp", 12000, 480000, sq=16, st=16)],
     technique="property-based testing (rapid): generated regsync YAML configurations (image / repository / registry entries, allow and deny lists from a "
               "regex grammar incl. top-level alternation and tag prefixes, platform, mediaTypes, backup templates, referrers / digestTags / fastCheck / "
               "forceRecursive as defaults and per-entry overrides, parallel 0-4) run through the real cobra commands `once` and `check` in-process against two "
